@@ -9,7 +9,7 @@
 (* resource; mempool/conflictfunc.go derives, per transaction type, the    *)
 (* keys a transaction occupies in every slot.  Mempool.tla exercises       *)
 (* outpoints and producer registrations through the whole pool; this       *)
-(* module states WHAT EVERY TRANSACTION KIND CLAIMS (ClaimsOf, written     *)
+(* module states WHAT EVERY TRANSACTION KIND CLAIMS (KindClaims, written   *)
 (* from the meaning of the payloads) for transaction templates that        *)
 (* deliberately collide, and differ only in payload version, output order  *)
 (* or the number of hashes they carry.                                     *)
@@ -18,20 +18,32 @@
 (* indexes; keys are symbolic (the replay driver maps them to real public  *)
 (* keys, hashes, program hashes, outpoints...).                            *)
 (*                                                                         *)
-(*   DoAppend(t) = TxPool.VerifyTx(tx), when that accepts, AppendTx(tx)    *)
-(*   DoRemove(t) = TxPool.CleanSubmittedTransactions(block holding tx)     *)
+(*   DoAppend(t)  = the pool half of appendToTxPool: side-chain pow        *)
+(*                  replacement, VerifyTx, size check, AppendTx,           *)
+(*                  doAddTransaction (transaction list, fee list)          *)
+(*   DoConnect(t) = TxPool.CleanSubmittedTransactions on a block holding   *)
+(*                  the one transaction t, which may or may not be pooled: *)
+(*                  what a connected block does to the pool                *)
+(*                  (cleanTransactions, cleanSideChainPowTx,               *)
+(*                  cleanCanceledProducerAndCR), modelled as the code does *)
+(*                  it, including the transient state it leaves until the  *)
+(*                  post-block CheckAndCleanAllTransactions: the keys of   *)
+(*                  the block's transaction are dropped from the index     *)
+(*                  whoever owns them.                                     *)
 (***************************************************************************)
 EXTENDS Integers, Sequences, FiniteSets, TLC, Json
 
 CONSTANTS Family,      \* which family of templates (see Tpl)
           MaxOps,      \* number of pool operations in a behaviour
-          WithRemove   \* BOOLEAN: Remove enabled
+          Connects     \* which one-transaction blocks are connected: "none" | "held" (pooled transactions
+                       \* only) | "related" (see Related) | "all"
 
-VARIABLES pool,    \* templates held
+VARIABLES pool,    \* templates held (transaction list)
           index,   \* the per-resource index: set of <<slot, key, owner template>>
+          dropped, \* index entries of still pooled transactions that a connected block dropped
           nops, log
-vars == <<pool, index, nops, log>>
-view == <<pool, index, nops>>
+vars == <<pool, index, dropped, nops, log>>
+view == <<pool, index, dropped, nops>>
 
 Range(s) == {s[i] : i \in 1..Len(s)}
 One(slot, k)   == {<<slot, k>>}
@@ -40,7 +52,7 @@ Many(slot, ks) == {<<slot, k>> : k \in ks}
 ---------------------------------------------------------------------------
 (* The state of the chain the pool sits on: producers registered on chain, *)
 (* owner key -> node key.  (A CancelProducer only names the owner key.)    *)
-Registered == [K0 |-> "N0", K9 |-> "N9"]
+Registered == [K0 |-> "N0", K8 |-> "N8", K9 |-> "N9"]
 
 (* Outputs of a transaction are listed in order; "plain" is an ordinary    *)
 (* (change / fee) output, anything else is the hash carried by a withdraw  *)
@@ -130,11 +142,7 @@ KindClaims(d) ==
          One("DposV2ClaimReward", d.stake)
     [] d.kind = "DposV2ClaimRewardRealWithdraw" ->
          Many("DposV2ClaimRewardRealWithdrawKey", Range(d.hashes))
-    [] d.kind = "TransferAsset" -> {}
-
-\* every kind: the outputs it spends
-Inputs(d) == IF "ins" \in DOMAIN d THEN Range(d.ins) ELSE {}
-ClaimsOf(d) == KindClaims(d) \cup Many("TxInputsReferKeys", Inputs(d))
+    [] d.kind \in {"TransferAsset", "Vote", "SideChainPow"} -> {}
 
 SlotNames == {
   "DPoSOwnerPublicKey", "DPoSNodePublicKey", "DPoSOwnerNodePublicKeys", "DPoSActivateCancel", "DPoSNickname",
@@ -174,6 +182,7 @@ Side == [
 
 RP(o, n, nick) == [kind |-> "RegisterProducer", owner |-> o, node |-> n, nick |-> nick]
 UP(o, n, nick) == [kind |-> "UpdateProducer", owner |-> o, node |-> n, nick |-> nick]
+Vote(vtype, cands) == [kind |-> "Vote", vtype |-> vtype, cands |-> cands]
 CP(o) == [kind |-> "CancelProducer", owner |-> o, regnode |-> Registered[o]]   \* regnode: for the replay's chain setup
 RCR(ver, script, key, cid, nick) == [kind |-> "RegisterCR", ver |-> ver, script |-> script, key |-> key, cid |-> cid, nick |-> nick]
 Dpos == [
@@ -188,7 +197,10 @@ Dpos == [
   UP_K1_N7_nH |-> UP("K1", "N7", "nickH"),
   UP_K8_N8_nB |-> UP("K8", "N8", "nickB"),
   CP_K0       |-> CP("K0"),
+  CP_K8       |-> CP("K8"),
   CP_K9       |-> CP("K9"),
+  VD_K0       |-> Vote("Delegate", <<"K0">>),         \* votes for producers (vote outputs of a transfer)
+  VD_K1K8     |-> Vote("Delegate", <<"K1", "K8">>),
   AP_N0       |-> [kind |-> "ActivateProducer", node |-> "N0"],
   AP_N1       |-> [kind |-> "ActivateProducer", node |-> "N1"],
   RCR_K1      |-> RCR(0, "std", "K1", "c1", "crA"),
@@ -211,6 +223,8 @@ Cr == [
   UCR_c3_nJ      |-> [kind |-> "UpdateCR", cid |-> "c3", nick |-> "crJ"],
   XCR_c1         |-> [kind |-> "UnregisterCR", cid |-> "c1"],
   XCR_c9         |-> [kind |-> "UnregisterCR", cid |-> "c9"],
+  VC_c1          |-> Vote("CRC", <<"c1">>),                     \* votes for CR candidates
+  VC_c3c9        |-> Vote("CRC", <<"c3", "c9">>),
   RDC_K1         |-> [kind |-> "ReturnDepositCoin", code |-> "K1"],
   RCDC_K1        |-> [kind |-> "ReturnCRDepositCoin", code |-> "K1"],
   RDC_K2         |-> [kind |-> "ReturnDepositCoin", code |-> "K2"],
@@ -296,7 +310,11 @@ Special == [
   PR_1    |-> [kind |-> "ProposalResult", n |-> 1],
   PR_2    |-> [kind |-> "ProposalResult", n |-> 2],
   RTD_1   |-> [kind |-> "RevertToDPOS", n |-> 1],
-  RTD_2   |-> [kind |-> "RevertToDPOS", n |-> 2] ]
+  RTD_2   |-> [kind |-> "RevertToDPOS", n |-> 2],
+  \* side-chain blocks: one per side chain (genesis) in the pool; signed by the arbiter on duty or by another one
+  SP_g1_a |-> [kind |-> "SideChainPow", genesis |-> "sg1", block |-> "sb1", onduty |-> TRUE],
+  SP_g1_b |-> [kind |-> "SideChainPow", genesis |-> "sg1", block |-> "sb2", onduty |-> FALSE],
+  SP_g2   |-> [kind |-> "SideChainPow", genesis |-> "sg2", block |-> "sb3", onduty |-> FALSE] ]
 
 Stake == [
   EV_S1       |-> [kind |-> "ExchangeVotes", stake |-> "S1"],                 \* stake address in the stake output
@@ -328,47 +346,146 @@ Tpl == CASE Family = "side"    -> Side
          [] Family = "special" -> Special
          [] Family = "stake"   -> Stake
 Templates == DOMAIN Tpl
-Claims(t) == ClaimsOf(Tpl[t])
 
-ASSUME \A t \in Templates : Claims(t) # {} /\ \A c \in Claims(t) : c[1] \in SlotNames
+(* Inputs.  Templates list the outpoints they spend when they collide on   *)
+(* them; every other template spends one outpoint of its own, except the   *)
+(* kinds that carry no input at all.                                       *)
+Inputless == {"IllegalProposalEvidence", "IllegalVoteEvidence", "IllegalBlockEvidence", "IllegalSidechainEvidence",
+              "InactiveArbitrators", "NextTurnDPOSInfo", "ProposalResult", "RevertToDPOS", "ActivateProducer",
+              "SideChainPow", "NFTDestroyFromSideChain", "DposV2ClaimReward"}
+InputsOf(t) == IF "ins" \in DOMAIN Tpl[t] THEN Range(Tpl[t].ins)
+               ELSE IF Tpl[t].kind \in Inputless THEN {} ELSE {"own:" \o t}
+Claims(t) == KindClaims(Tpl[t]) \cup Many("TxInputsReferKeys", InputsOf(t))
 
-(* The block-connected cleanup handles NextTurnDPOSInfo transactions on a  *)
-(* path of its own that needs the transaction list of the full pool.       *)
-Removable(t) == Tpl[t].kind # "NextTurnDPOSInfo"
+ASSUME \A t \in Templates : \A c \in Claims(t) : c[1] \in SlotNames
+ASSUME \A t \in Templates : Tpl[t].kind = "CancelProducer" => Tpl[t].owner \in DOMAIN Registered
 
 ---------------------------------------------------------------------------
 IndexOf(p) == UNION {{<<c[1], c[2], t>> : c \in Claims(t)} : t \in p}
 \* slot -> set of <<key, owner>>
 IndexView(idx) == [s \in {e[1] : e \in idx} |-> {<<e[2], e[3]>> : e \in {f \in idx : f[1] = s}}]
+\* the index after the transactions `gone` left and the keys `keys` were deleted.  A transaction that leaves
+\* (doRemoveTransaction -> removeTx) deletes the keys it claims, not the entries it owns: in the transient state after
+\* a connected block took a key from it, that key may meanwhile belong to another transaction.
+Without(idx, gone, keys) == {e \in idx : <<e[1], e[2]>> \notin (keys \cup UNION {Claims(u) : u \in gone})}
 
-Init == pool = {} /\ index = {} /\ nops = 0 /\ log = <<>>
+Init == pool = {} /\ index = {} /\ dropped = {} /\ nops = 0 /\ log = <<>>
+
+(* A side-chain pow transaction replaces the pooled one of its side chain  *)
+(* (before anything else is looked at).                                    *)
+Replaced(t) == IF Tpl[t].kind # "SideChainPow" THEN {}
+               ELSE {u \in pool : Tpl[u].kind = "SideChainPow" /\ Tpl[u].genesis = Tpl[t].genesis}
 
 DoAppend(t) ==
     /\ nops < MaxOps /\ t \notin pool
     /\ LET c    == Claims(t)
-           hits == {e \in index : <<e[1], e[2]>> \in c}
+           gone == Replaced(t)
+           p1   == pool \ gone
+           i1   == Without(index, gone, {})
+           hits == {e \in i1 : <<e[1], e[2]>> \in c}
            ok   == hits = {}
-           p2   == IF ok THEN pool \cup {t} ELSE pool
-           i2   == IF ok THEN index \cup {<<x[1], x[2], t>> : x \in c} ELSE index
+           p2   == IF ok THEN p1 \cup {t} ELSE p1
+           i2   == IF ok THEN i1 \cup {<<x[1], x[2], t>> : x \in c} ELSE i1
        IN /\ pool' = p2 /\ index' = i2 /\ nops' = nops + 1
-          /\ log' = Append(log, [act |-> "Append", t |-> t, def |-> Tpl[t],
+          /\ dropped' = {e \in dropped \cup (index \ i1) : e[3] \in p2}
+          /\ log' = Append(log, [act |-> "Append", t |-> t, def |-> Tpl[t], ins |-> InputsOf(t),
                                  exp |-> [verdict |-> IF ok THEN "ok" ELSE "conflict",
-                                          slots |-> {e[1] : e \in hits}, with |-> {e[3] : e \in hits}],
+                                          slots |-> {e[1] : e \in hits}, with |-> {e[3] : e \in hits}, evicted |-> gone],
                                  pool |-> p2, index |-> IndexView(i2)])
 
-DoRemove(t) ==
-    /\ WithRemove /\ nops < MaxOps /\ t \in pool /\ Removable(t)
-    /\ pool' = pool \ {t} /\ index' = {e \in index : e[3] # t} /\ nops' = nops + 1
-    /\ log' = Append(log, [act |-> "Remove", t |-> t, def |-> Tpl[t], exp |-> [verdict |-> "removed"],
-                           pool |-> pool', index |-> IndexView(index')])
+(***************************************************************************)
+(* What a connected block [t] does to the pool (CleanSubmittedTransactions)*)
+(*  1 cleanTransactions: a side-chain pow / next-turn transaction of the   *)
+(*    block just leaves the pool if it is there.  For any other kind, the  *)
+(*    pooled transactions the index names as spenders of t's inputs leave  *)
+(*    (t itself among them if it is pooled and spends something), then the *)
+(*    keys t claims are deleted from the index, whoever owns them.         *)
+(*  2 cleanSideChainPowTx: pooled side-chain pow transactions not signed   *)
+(*    by the arbiter on duty leave.                                        *)
+(*  3 cleanCanceledProducerAndCR: a CancelProducer of owner X removes the  *)
+(*    pooled UpdateProducer transactions of X (and then deletes X and the  *)
+(*    update's node key from the owner / node key slots, whoever owns      *)
+(*    them) and the pooled transfers with a Delegate vote for X; an        *)
+(*    UnregisterCR of CID c likewise the pooled UpdateCR of c (deleting c  *)
+(*    from the CrDID slot) and transfers with a CRC vote for c.            *)
+(* A transaction that leaves deletes the keys it claims from the index.    *)
+(***************************************************************************)
+OwnPath(t) == Tpl[t].kind \in {"SideChainPow", "NextTurnDPOSInfo"}
+VotesFor(u, vtype, cand) == Tpl[u].kind = "Vote" /\ Tpl[u].vtype = vtype /\ cand \in Range(Tpl[u].cands)
 
-Next == \E t \in Templates : DoAppend(t) \/ DoRemove(t)
+(* Blocks worth connecting when the exploration is bounded: the block's    *)
+(* transaction is pooled, claims a key the index holds, cancels a producer *)
+(* or a CR (whatever the pool holds), the pool holds side-chain pow        *)
+(* transactions, or it is the family's probe (a block that concerns        *)
+(* nothing in the pool).                                                   *)
+Probe == CASE Family = "side" -> "ND_h1" [] Family = "dpos" -> "CM_N9_dY" [] Family = "cr" -> "RDC_K2"
+           [] Family = "crtail" -> "RCR2_K5_c5" [] Family = "prop1" -> "PRcv_g14_mL" [] Family = "prop2" -> "PSide_g5_mE"
+           [] Family = "special" -> "IP_pB" [] Family = "stake" -> "TA_o3"
+ASSUME Probe \in Templates
+Related(t) == \/ t \in pool
+              \/ \E e \in index : <<e[1], e[2]>> \in Claims(t)
+              \/ Tpl[t].kind \in {"CancelProducer", "UnregisterCR"}
+              \/ (t = Probe /\ pool # {})
+              \/ (Tpl[t].kind = "SideChainPow" /\ \E u \in pool : Tpl[u].kind = "SideChainPow")
+
+DoConnect(t) ==
+    /\ Connects # "none" /\ nops < MaxOps
+    /\ (Connects = "held" => t \in pool)
+    /\ (Connects = "related" => (Related(t) = TRUE))     \* (= TRUE: one successor, not one per true disjunct)
+    /\ LET d    == Tpl[t]
+           \* 1
+           ev1  == IF OwnPath(t) THEN {t} \cap pool
+                   ELSE {e[3] : e \in {f \in index : f[1] = "TxInputsReferKeys" /\ f[2] \in InputsOf(t)}}
+           p1   == pool \ ev1
+           i1   == Without(index, ev1, IF OwnPath(t) THEN {} ELSE Claims(t))
+           \* 2
+           ev2  == {u \in p1 : Tpl[u].kind = "SideChainPow" /\ ~Tpl[u].onduty}
+           p2   == p1 \ ev2
+           i2   == Without(i1, ev2, {})
+           \* 3
+           upd  == CASE d.kind = "CancelProducer" -> {u \in p2 : Tpl[u].kind = "UpdateProducer" /\ Tpl[u].owner = d.owner}
+                     [] d.kind = "UnregisterCR"   -> {u \in p2 : Tpl[u].kind = "UpdateCR" /\ Tpl[u].cid = d.cid}
+                     [] OTHER -> {}
+           vot  == CASE d.kind = "CancelProducer" -> {u \in p2 : VotesFor(u, "Delegate", d.owner)}
+                     [] d.kind = "UnregisterCR"   -> {u \in p2 : VotesFor(u, "CRC", d.cid)}
+                     [] OTHER -> {}
+           keys == CASE d.kind = "CancelProducer" ->
+                          UNION {{<<"DPoSOwnerPublicKey", Tpl[u].owner>>, <<"DPoSNodePublicKey", Tpl[u].node>>} : u \in upd}
+                     [] d.kind = "UnregisterCR"   -> {<<"CrDID", Tpl[u].cid>> : u \in upd}
+                     [] OTHER -> {}
+           p3   == p2 \ (upd \cup vot)
+           i3   == Without(i2, upd \cup vot, keys)
+           gone == pool \ p3
+           lost == {e \in index \ i3 : e[3] \in p3}      \* entries dropped although their owner stays
+       IN /\ pool' = p3 /\ index' = i3 /\ nops' = nops + 1
+          /\ dropped' = {e \in dropped \cup lost : e[3] \in p3}
+          /\ log' = Append(log, [act |-> "Connect", t |-> t, def |-> d, ins |-> InputsOf(t),
+                                 exp |-> [verdict |-> "connected", evicted |-> gone, stripped |-> lost],
+                                 pool |-> p3, index |-> IndexView(i3)])
+
+Next == \E t \in Templates : DoAppend(t) \/ DoConnect(t)
 Spec == Init /\ [][Next]_vars
 
-(* C34 *)
-ConflictFree == \A t1, t2 \in pool : t1 # t2 => Claims(t1) \cap Claims(t2) = {}
-IndexAgrees  == index = IndexOf(pool)
+(***************************************************************************)
+(* C34.  A pooled transaction owns every claim it makes, except those a    *)
+(* connected block dropped by the rules above (the block claimed the same  *)
+(* resource, or cancelled the producer / CR the entry belongs to); claims  *)
+(* of transactions unrelated to the block are untouched.  Nothing else is  *)
+(* in the index, a key has one owner, and two pooled transactions claim    *)
+(* the same resource only if a block took it from one of them.             *)
+(***************************************************************************)
+IndexAgrees  == /\ index \cap dropped = {}
+                /\ index \cup dropped = IndexOf(pool)
 OneOwner     == \A e1, e2 \in index : (e1[1] = e2[1] /\ e1[2] = e2[2]) => e1[3] = e2[3]
+ConflictFree == \A t1, t2 \in pool : t1 # t2 =>
+                   \A c \in Claims(t1) \cap Claims(t2) : <<c[1], c[2], t1>> \in dropped \/ <<c[1], c[2], t2>> \in dropped
+\* what a step may drop from a transaction that stays: only keys the connected block's transaction claims itself, or
+\* keys claimed by a transaction that leaves the pool in that step (the cancelled producer's / CR's update among them)
+DropsJustified ==
+    [][LET s == log'[Len(log')]
+       IN \A e \in dropped' \ dropped :
+             \/ (s.act = "Connect" /\ <<e[1], e[2]>> \in Claims(s.t))
+             \/ \E u \in pool \ pool' : <<e[1], e[2]>> \in Claims(u)]_vars
 
 Emit     == PrintT(<<"TRACE", ToJson(log')>>)
 EmitLast == (nops' = MaxOps) => PrintT(<<"TRACE", ToJson(log')>>)
